@@ -281,6 +281,7 @@ pub enum Part {
     C19,
     C14,
     Bfs(crate::bfs::BfsSpec),
+    Churn,
 }
 
 fn nt_ev(name: &'static str) -> fn(&Events) -> bool {
@@ -366,6 +367,9 @@ pub fn parts(id: &str, tier: &str) -> Option<(Vec<Part>, Info)> {
             v.push(Part::Pair(p));
         } else {
             v.push(Part::Hist(spec));
+        }
+        if id == "C16" {
+            v.push(Part::Churn);
         }
         if matches!(id, "C01" | "C02" | "C03" | "C04" | "C09" | "C10" | "C15" | "C16" | "C20") {
             // engine 2: bounded-exhaustive exploration on (u8,u8) with prefix lengths <= w
@@ -484,8 +488,23 @@ pub fn run_check(id: &str, tier: &str, seed: u64, replay: Option<&str>) -> i32 {
             // the replay file says which part produced it
             let txt = std::fs::read_to_string(p).unwrap_or_default();
             let is_pair = txt.contains("\"nav_a\"") && txt.contains("\"mode\"");
+            let is_churn = txt.contains("\"perm_seed\"") && txt.contains("\"phases\"");
+            // the `check` label of the replay file says which history part produced it
+            let label: String = serde_json::from_str::<serde_json::Value>(&txt).ok().and_then(|v| v["check"].as_str().map(|s| s.to_string())).unwrap_or_default();
+            let best_hist: Option<&'static str> = parts
+                .iter()
+                .filter_map(|p| match p {
+                    Part::Hist(s) if label.starts_with(&format!("{}-", s.label)) => Some(s.label),
+                    _ => None,
+                })
+                .max_by_key(|l| l.len());
             for part in &parts {
                 match part {
+                    Part::Hist(s) if best_hist.is_some() && best_hist != Some(s.label) => {}
+                    Part::Churn if txt.contains("\"perm_seed\"") && txt.contains("\"phases\"") => {
+                        o = crate::c16::replay_churn(p);
+                        break;
+                    }
                     Part::C17 => {
                         o = crate::c17::replay_c17(p);
                         break;
@@ -504,7 +523,7 @@ pub fn run_check(id: &str, tier: &str, seed: u64, replay: Option<&str>) -> i32 {
                         };
                         break;
                     }
-                    Part::Hist(s) if !is_pair => {
+                    Part::Hist(s) if !is_pair && !is_churn => {
                         o = replay_hist(s, p);
                         break;
                     }
@@ -523,6 +542,7 @@ pub fn run_check(id: &str, tier: &str, seed: u64, replay: Option<&str>) -> i32 {
                     Part::Hist(s) => run_hist_check(s, seed),
                     Part::Pair(s) => run_pair_check(s, seed),
                     Part::Bfs(b) => crate::bfs::run_bfs(b),
+                    Part::Churn => crate::c16::run_churn_check(tier, seed),
                     Part::C17 => crate::c17::run_c17(tier, seed),
                     Part::C19 => crate::c19::run_c19_check(tier, seed),
                     Part::C14 => {
@@ -540,6 +560,52 @@ pub fn run_check(id: &str, tier: &str, seed: u64, replay: Option<&str>) -> i32 {
                 if o.violation.is_some() {
                     break;
                 }
+            }
+            // release-profile twin (no overflow checks, no debug assertions) for the properties that
+            // speak about "debug and release builds"
+            let is_child = std::env::var("PTV_PLAIN_CHILD").is_ok();
+            if tier == "thorough" && matches!(id, "C17" | "C20") && !is_child && o.violation.is_none() && o.harness_bug.is_none() {
+                if let Ok(bin) = std::env::var("PTV_PLAIN_BIN") {
+                    match std::process::Command::new(&bin).args([id, tier, "--seed", &seed.to_string()]).env("PTV_PLAIN_CHILD", "1").output() {
+                        Ok(out) => {
+                            let so = String::from_utf8_lossy(&out.stdout).to_string();
+                            if let Some(l) = so.lines().find_map(|l| l.strip_prefix("PLAIN-RESULT ")) {
+                                if let Ok(v) = serde_json::from_str::<serde_json::Value>(l) {
+                                    o.evaluations += v["evaluations"].as_u64().unwrap_or(0);
+                                    o.counted_nontrivial += v["nontrivial"].as_u64().unwrap_or(0);
+                                    o.extra.insert("plain_profile".into(), v.clone());
+                                    if let Some(vi) = v.get("violation").filter(|x| !x.is_null()) {
+                                        o.violation = Some(Violation {
+                                            prop: vi["prop"].as_str().unwrap_or(id).to_string(),
+                                            sig: format!("{} (release profile, wrapping arithmetic)", vi["sig"].as_str().unwrap_or("")),
+                                            msg: vi["msg"].as_str().unwrap_or("").to_string(),
+                                            replay: vi["replay"].as_str().unwrap_or("").to_string(),
+                                        });
+                                    }
+                                    if let Some(hb) = v["harness_bug"].as_str() {
+                                        o.harness_bug = Some(format!("release-profile child: {hb}"));
+                                    }
+                                }
+                            } else {
+                                o.harness_bug = Some(format!("release-profile child produced no result (status {:?}): {}", out.status.code(), so.lines().rev().take(5).collect::<Vec<_>>().join(" | ")));
+                            }
+                        }
+                        Err(e) => o.harness_bug = Some(format!("cannot run release-profile child {bin}: {e}")),
+                    }
+                } else {
+                    o.extra.insert("plain_profile".into(), "not run (PTV_PLAIN_BIN unset)".into());
+                }
+            }
+            if is_child {
+                let v = serde_json::json!({
+                    "evaluations": o.evaluations.max(o.sub_evaluations),
+                    "nontrivial": o.nontrivial.len() as u64 + o.counted_nontrivial,
+                    "violation": o.violation.as_ref().map(|v| serde_json::json!({"prop": v.prop, "sig": v.sig, "msg": v.msg, "replay": v.replay})),
+                    "harness_bug": o.harness_bug,
+                    "profile": "plain: opt-level 2, overflow-checks off, debug-assertions off",
+                });
+                println!("PLAIN-RESULT {v}");
+                return if o.violation.is_some() { 1 } else { 0 };
             }
             write_evidence(
                 &Report {
